@@ -46,6 +46,10 @@ CLAIMS["C07"] = ("other", "who-may-write with mechanism-tied contexts for every 
   "Decides the structural backbone of the life cycle for every path: each status constant is written only in the context implementing its transition, one +1 counter increment on the clone behind the blind guards, the open step only under 'no hand state' and the engine mutex, a complete per-hand reset, closed/released tests before pause, set-up and open. One genuine open-after-close defect was repaired (fix: commit). Timing of the asynchronous trigger and game-id freshness are not decided.",
   "DESIGN.md §4 C07, §5 F6", TRUST)
 
+CLAIMS["C04"] = ("other", "structural rules over the seat manager's SSA: modulus uniformity, old/new-value provenance of the three seat ids per branch (load/store ordering), error-purity of the rotation, guard dominance of the refusal test, shape recognition of the circular scan helpers (induction range, direction, predicate set), definitional check of eligibility",
+  "Decides the clauses of the dead-button rotation that are visible in the shape of the code (which old value feeds which seat, refusal purity and guards, scan shapes, eligibility definition, seat-count-independent arithmetic). One genuine defect (literal modulus 9) was repaired (fix: commit). 'Nobody skipped / never backwards / seats distinct' over all reachable states needs state exploration and is not decided.",
+  "DESIGN.md §4 C04, §5 F1", TRUST)
+
 REASONS = {}
 
 checks = []
